@@ -2,6 +2,7 @@ package main
 
 import (
 	"fmt"
+	"runtime"
 	"sort"
 	"strconv"
 	"strings"
@@ -15,8 +16,10 @@ import (
 
 // The `ev` section: sequential histories over real event.Event1[int] objects.
 //
-//	ev new <max> [pre]         New1[int](WithMaxTriggerCount(max)[, WithPreTriggerFunc]), max 0 = unlimited   -> e<i>
-//	ev hook <e> <max> sync|pool [pre]  Hook with WithMaxTriggerCount / WithWorkerPool / WithPreTriggerFunc   -> h<i>
+//	ev new <max> [pre] [pool]  New1[int](WithMaxTriggerCount(max)[, WithPreTriggerFunc][, WithWorkerPool(pool)])    -> e<i>
+//	ev hook <e> <max> sync|pool|inplace [pre]  Hook with WithMaxTriggerCount / WithPreTriggerFunc and no pool option
+//	                           (sync: the event's pool, if any, applies) / WithWorkerPool(pool) / WithWorkerPool(nil)   -> h<i>
+//	                           an entry counts as pooled iff it ran on another goroutine than the Trigger call
 //	                           log entries: <h>:<a> invocation, E<e>:<a> / P<h>:<a> pre-trigger function of event / hook
 //	ev unhook <h>
 //	ev trigger <e> <a>         -> sync [h:a ...] pool [h:a ...]   (pooled calls after the pool drained, sorted)
@@ -32,18 +35,19 @@ type evCall struct {
 
 // oracle records (the property's reading, independent of the Lean model)
 type oHook struct {
-	ev, handle    int
-	link          int // -1: user hook, else source event
-	max, count    int
-	fired         int
-	pooled, alive bool
-	pre           bool
+	ev, handle int
+	link       int // -1: user hook, else source event
+	max, count int
+	fired      int
+	pool       int // 0 no option (inherit the event's pool), 1 own pool, 2 forced in place
+	alive      bool
+	pre        bool
 }
 
 type oEvent struct {
-	max, count int
-	link       *oHook
-	pre        bool
+	max, count  int
+	link        *oHook
+	pre, pooled bool
 }
 
 type evWorld struct {
@@ -52,6 +56,7 @@ type evWorld struct {
 	pool   *workerpool.WorkerPool
 	mu     sync.Mutex
 	log    []evCall
+	caller int64 // goroutine of the running top-level Trigger call
 	// oracle
 	oev      []*oEvent
 	ohooks   []*oHook // all hooks (user and link) in creation order
@@ -94,8 +99,50 @@ func fmtCalls(cs []evCall) string {
 	return "[" + strings.Join(parts, " ") + "]"
 }
 
-// expect computes, per the property, the calls of one Trigger(e, a) and updates the oracle records.
-func (v *evWorld) expect(e, a int, out *[]evCall) {
+// goid returns the id of the calling goroutine (parsed from the stack header "goroutine N [").
+func goid() int64 {
+	var buf [64]byte
+	n := runtime.Stack(buf[:], false)
+	f := strings.Fields(string(buf[:n]))
+	if len(f) < 2 {
+		return -1
+	}
+	id, _ := strconv.ParseInt(f[1], 10, 64)
+
+	return id
+}
+
+func (v *evWorld) record(h, a int, kind string) {
+	async := goid() != v.caller
+	v.mu.Lock()
+	v.log = append(v.log, evCall{h, a, async, kind})
+	v.mu.Unlock()
+}
+
+func rank(c evCall) int {
+	switch c.kind {
+	case "E":
+		return 1
+	case "P":
+		return 2
+	}
+
+	return 0
+}
+
+func sortPool(cs []evCall) {
+	sort.SliceStable(cs, func(i, j int) bool {
+		if rank(cs[i]) != rank(cs[j]) {
+			return rank(cs[i]) < rank(cs[j])
+		}
+
+		return cs[i].h < cs[j].h
+	})
+}
+
+// expect computes, per the property, the calls of one Trigger(e, a) and updates the oracle records (async: this
+// Trigger was itself submitted to a pool).
+func (v *evWorld) expect(e, a int, async bool, out *[]evCall) {
 	oe := v.oev[e]
 	oe.count++
 	if oe.max != 0 && oe.count > oe.max {
@@ -115,15 +162,16 @@ func (v *evWorld) expect(e, a int, out *[]evCall) {
 		}
 		h.fired++
 		if oe.pre {
-			*out = append(*out, evCall{e, a, false, "E"})
+			*out = append(*out, evCall{e, a, async, "E"})
 		}
 		if h.pre {
-			*out = append(*out, evCall{h.handle, a, false, "P"})
+			*out = append(*out, evCall{h.handle, a, async, "P"})
 		}
+		pooled := async || h.pool == 1 || (h.pool == 0 && oe.pooled)
 		if h.link >= 0 {
-			v.expect(h.link, a, out)
+			v.expect(h.link, a, pooled, out)
 		} else {
-			*out = append(*out, evCall{h.handle, a, h.pooled, ""})
+			*out = append(*out, evCall{h.handle, a, pooled, ""})
 		}
 	}
 }
@@ -144,55 +192,51 @@ func (w *world) execEV(f []string) string {
 	switch f[0] {
 	case "new":
 		m, ok := num(1)
-		if !ok || !(len(f) == 2 || (len(f) == 3 && f[2] == "pre")) {
+		rest := strings.Join(f[2:], " ")
+		if !ok || !(rest == "" || rest == "pre" || rest == "pool" || rest == "pre pool") {
 			return "bad-op"
 		}
-		pre := len(f) == 3
+		pre := strings.HasPrefix(rest, "pre")
+		epool := strings.HasSuffix(rest, "pool")
 		var eopts []event.Option
+		if epool {
+			eopts = append(eopts, event.WithWorkerPool(v.getPool()))
+		}
 		if m > 0 {
 			eopts = append(eopts, event.WithMaxTriggerCount(uint64(m)))
 		}
 		if pre {
 			idx := len(v.events)
-			eopts = append(eopts, event.WithPreTriggerFunc(func(a int) {
-				v.mu.Lock()
-				v.log = append(v.log, evCall{idx, a, false, "E"})
-				v.mu.Unlock()
-			}))
+			eopts = append(eopts, event.WithPreTriggerFunc(func(a int) { v.record(idx, a, "E") }))
 		}
 		v.events = append(v.events, event.New1[int](eopts...))
-		v.oev = append(v.oev, &oEvent{max: m, pre: pre})
+		v.oev = append(v.oev, &oEvent{max: m, pre: pre, pooled: epool})
 
 		return fmt.Sprintf("e%d", len(v.events)-1)
 	case "hook":
 		e, ok1 := num(1)
 		m, ok2 := num(2)
-		if !ok1 || !ok2 || !(len(f) == 4 || (len(f) == 5 && f[4] == "pre")) || (f[3] != "sync" && f[3] != "pool") || e >= len(v.events) {
+		if !ok1 || !ok2 || !(len(f) == 4 || (len(f) == 5 && f[4] == "pre")) || (f[3] != "sync" && f[3] != "pool" && f[3] != "inplace") || e >= len(v.events) {
 			return "bad-op"
 		}
-		pooled := f[3] == "pool"
+		pool := map[string]int{"sync": 0, "pool": 1, "inplace": 2}[f[3]]
 		pre := len(f) == 5
 		h := len(v.hooks)
 		var opts []event.Option
 		if m > 0 {
 			opts = append(opts, event.WithMaxTriggerCount(uint64(m)))
 		}
-		if pooled {
+		switch pool {
+		case 1:
 			opts = append(opts, event.WithWorkerPool(v.getPool()))
+		case 2:
+			opts = append(opts, event.WithWorkerPool(nil))
 		}
 		if pre {
-			opts = append(opts, event.WithPreTriggerFunc(func(a int) {
-				v.mu.Lock()
-				v.log = append(v.log, evCall{h, a, false, "P"})
-				v.mu.Unlock()
-			}))
+			opts = append(opts, event.WithPreTriggerFunc(func(a int) { v.record(h, a, "P") }))
 		}
-		v.hooks = append(v.hooks, v.events[e].Hook(func(a int) {
-			v.mu.Lock()
-			v.log = append(v.log, evCall{h, a, pooled, ""})
-			v.mu.Unlock()
-		}, opts...))
-		oh := &oHook{ev: e, handle: h, link: -1, max: m, pooled: pooled, alive: true, pre: pre}
+		v.hooks = append(v.hooks, v.events[e].Hook(func(a int) { v.record(h, a, "") }, opts...))
+		oh := &oHook{ev: e, handle: h, link: -1, max: m, pool: pool, alive: true, pre: pre}
 		v.ohooks = append(v.ohooks, oh)
 		v.ouser = append(v.ouser, oh)
 
@@ -215,6 +259,7 @@ func (w *world) execEV(f []string) string {
 		v.triggers++
 		v.mu.Lock()
 		v.log = nil
+		v.caller = goid()
 		v.mu.Unlock()
 		v.events[e].Trigger(a)
 		v.mu.Lock()
@@ -239,10 +284,10 @@ func (w *world) execEV(f []string) string {
 		}
 		nSyncAfter := len(v.log) - len(poolCalls)
 		v.mu.Unlock()
-		sort.SliceStable(poolCalls, func(i, j int) bool { return poolCalls[i].h < poolCalls[j].h })
+		sortPool(poolCalls)
 		// the property, evaluated independently of Lean
 		var want []evCall
-		v.expect(e, a, &want)
+		v.expect(e, a, false, &want)
 		var wantSync, wantPool []evCall
 		for _, c := range want {
 			if c.pooled {
@@ -251,7 +296,7 @@ func (w *world) execEV(f []string) string {
 				wantSync = append(wantSync, c)
 			}
 		}
-		sort.SliceStable(wantPool, func(i, j int) bool { return wantPool[i].h < wantPool[j].h })
+		sortPool(wantPool)
 		if fmtCalls(syncCalls) != fmtCalls(wantSync) || nSyncAfter != len(syncCalls) {
 			w.fail("trigger-exactly-once", fmt.Sprintf("Trigger(e%d,%d): synchronous calls %s, the attached hooks in attachment order are %s", e, a, fmtCalls(syncCalls), fmtCalls(wantSync)),
 				map[string]string{"oracle": "sync-calls", "api": "event.Event1.Trigger", "mode": "sequential"})
@@ -324,6 +369,10 @@ func (w *world) execEV(f []string) string {
 }
 
 var evCorpus = [][]string{
+	// event-level pool: hooks without a pool option are submitted, WithWorkerPool(nil) forces in-place execution
+	{"ev new 0 pool", "ev hook 0 0 sync", "ev hook 0 0 inplace", "ev hook 0 2 pool pre", "ev trigger 0 5", "ev trigger 0 6", "ev trigger 0 7"},
+	// a link hook on a pooled target: the source's Trigger (its pre-trigger calls and in-place hooks too) runs in a worker
+	{"ev new 0 pre pool", "ev new 0 pre", "ev hook 1 0 sync pre", "ev hook 1 0 inplace", "ev hook 0 0 inplace", "ev link 1 0", "ev trigger 0 1", "ev trigger 1 2"},
 	{"ev new 0 pre", "ev hook 0 0 sync", "ev hook 0 1 pool pre", "ev hook 0 0 sync pre", "ev unhook 0", "ev trigger 0 5", "ev hook 0 3 sync", "ev trigger 0 6"},
 	{"ev new 0 pre", "ev new 1 pre", "ev hook 1 0 sync pre", "ev hook 0 2 sync pre", "ev link 1 0", "ev trigger 0 1", "ev trigger 0 2", "ev trigger 0 3", "ev trigger 1 4"},
 	{"ev new 0", "ev hook 0 0 sync", "ev hook 0 2 sync", "ev hook 0 0 pool", "ev trigger 0 7", "ev trigger 0 8", "ev trigger 0 9", "ev hcount 1", "ev unhook 0", "ev trigger 0 1", "ev tcount 0"},
@@ -341,6 +390,9 @@ func genEV(rng *hx.Rng, n int) []string {
 		if rng.Chance(1, 3) {
 			pre = " pre"
 		}
+		if rng.Chance(1, 4) {
+			pre += " pool"
+		}
 		ops = append(ops, fmt.Sprintf("ev new %d%s", hx.Pick(rng, []int{0, 0, 0, 1, 2, 4}), pre))
 	}
 	hooks := 0
@@ -350,6 +402,8 @@ func genEV(rng *hx.Rng, n int) []string {
 			kind := "sync"
 			if rng.Chance(1, 4) {
 				kind = "pool"
+			} else if rng.Chance(1, 6) {
+				kind = "inplace"
 			}
 			if rng.Chance(1, 4) {
 				kind += " pre"
